@@ -144,9 +144,9 @@ def run():
         "rule": "programs = record graphs built from script text and converted (togo / _method Echo / Snoopy.EchoWeather); "
                 "disagreements_checked = recorded conversion outcomes compared by TLC with Fill / MatchStruct "
                 "(a graph with a shared record is converted 40 times, every distinct outcome is compared); generators: "
-                "f1 one field x every palette value of its type for 18 registered types (harness family + demo structs), "
+                "f1 one field x every palette value of its type for 19 registered types (harness family + demo structs), "
                 "w1/u1 one wrong-kind value / one undeclared key at every field, w2/u2/n1 the same and valid children one "
-                "level down at 27 reference positions, s2/s3 every pair / sampled triples of reference positions sharing one "
+                "level down at 29 reference positions, s2/s3 every pair / sampled triples of reference positions sharing one "
                 "record, s4 diamonds, c1 cycles, r seeded random graphs of depth <= 3 with shared records",
     }
     return flow.finish(out, "translation_validation", cov, [
